@@ -235,9 +235,13 @@ pub struct Item {
     pub bundle: Vec<Scenario>,
     /// Sched: the other concurrent callers (worker 0 is `scen`)
     pub others: Vec<Scenario>,
+    /// C08: mount options of the jail's /proc, caller identity, descriptor limit
+    pub proc_opts: Option<String>,
+    pub unpriv: bool,
+    pub nofile: Option<u64>,
 }
 
-fn item(scen: Scenario, plan: Plan, max_exec: u64) -> Item { Item { scen, plan, warm: true, mount_api: 0, max_exec, bundle: vec![], others: vec![] } }
+fn item(scen: Scenario, plan: Plan, max_exec: u64) -> Item { Item { scen, plan, warm: true, mount_api: 0, max_exec, bundle: vec![], others: vec![], proc_opts: None, unpriv: false, nofile: None } }
 
 /// Argument spellings for the input sweep of mutating operations (C03/C05/C11).
 pub fn sweep_paths() -> Vec<&'static str> {
@@ -329,6 +333,7 @@ pub fn handle_scenarios(thorough: bool) -> Vec<Scenario> {
 
 /// handle keys of the form "h:<path>" / "nf:<path>" are resolved during warm-up
 pub fn handle_warmup(op: &Op) -> Vec<Op> {
+    if op.procfs.as_deref() == Some("pj") { return vec![Op::new("proc_from_path").path("/proc").keep("pj")]; }
     match op.handle.as_deref() {
         Some(h) if h.starts_with("h:") => vec![Op::new("resolve").root(ROOT_IN).path(&h[2..]).keep(h)],
         Some(h) if h.starts_with("nf:") => vec![Op::new("resolve_nofollow").root(ROOT_IN).path(&h[3..]).keep(h)],
@@ -337,7 +342,7 @@ pub fn handle_warmup(op: &Op) -> Vec<Op> {
 }
 
 fn fault_cfg(th: bool) -> FaultCfg {
-    FaultCfg { all_syscalls: th, per_class: if th { 7 } else { 3 }, eagain_runs: vec![15, 16, 17], exhaustion: true }
+    FaultCfg { all_syscalls: th, per_class: if th { 7 } else { 3 }, eagain_runs: vec![15, 16, 17], exhaustion: true, custom: None }
 }
 
 pub fn items(prop: &str, tier: &str) -> Vec<Item> {
@@ -346,7 +351,7 @@ pub fn items(prop: &str, tier: &str) -> Vec<Item> {
     let bundle = |name: &str, scens: Vec<Scenario>, size: usize, warm: bool, mount_api: u8, out: &mut Vec<Item>| {
         for (i, ch) in scens.chunks(size).enumerate() {
             let s0 = Scenario { name: format!("{}#{}", name, i), backend: ch[0].backend.clone(), op: ch[0].op.clone(), path: String::new() };
-            out.push(Item { scen: s0, plan: Plan::Trace, warm, mount_api, max_exec: 1, bundle: ch.to_vec(), others: vec![] });
+            out.push(Item { scen: s0, plan: Plan::Trace, warm, mount_api, max_exec: 1, bundle: ch.to_vec(), others: vec![], proc_opts: None, unpriv: false, nofile: None });
         }
     };
     match prop {
@@ -402,15 +407,54 @@ pub fn items(prop: &str, tier: &str) -> Vec<Item> {
             f.extend(lookup_scenarios(false).into_iter().step_by(if th { 2 } else { 6 }));
             f.extend(mutating_scenarios(false).into_iter().step_by(if th { 2 } else { 5 }));
             f.extend(handle_scenarios(false).into_iter().step_by(if th { 2 } else { 5 }));
-            for s in f.clone() { v.push(item(s, Plan::Fault { bound: 1, cfg: FaultCfg { all_syscalls: false, per_class: if th { 3 } else { 1 }, eagain_runs: vec![16], exhaustion: true } }, if th { 20_000 } else { 2_000 })); }
+            for s in f.clone() { v.push(item(s, Plan::Fault { bound: 1, cfg: FaultCfg { all_syscalls: false, per_class: if th { 3 } else { 1 }, eagain_runs: vec![16], exhaustion: true, custom: None } }, if th { 20_000 } else { 2_000 })); }
             for s in f.into_iter().filter(|s| !s.path.is_empty()).step_by(2) { v.push(item(s, Plan::Attack { bound: 1, full: false }, 2_000)); }
+        }
+        "C08" => {
+            let subs: Vec<(&str, &str, &str)> = vec![
+                ("root", "nonexistent", "missing"), ("self", "nonexistent", "missing"), ("thread-self", "fd/nonexistent", "missing"), ("root", "self/nonexistent/x", "missing"), ("root", "sys/nonexistent", "missing"), ("root", "999999999/status", "missing"),
+                ("self", "status", "existing"), ("thread-self", "fd/3", "existing"), ("root", "self/stat", "existing"),
+                ("root", "sys/kernel/ostype", "masked"), ("root", "1/status", "masked"), ("root", "uptime", "masked"), ("root", "1/nonexistent", "masked"),
+            ];
+            let mut cfgs: Vec<(bool, Option<&str>)> = Vec::new();
+            for unpriv in [false, true] { for o in [None, Some("hidepid=1"), Some("hidepid=2"), Some("hidepid=ptraceable"), Some("subset=pid"), Some("hidepid=2,subset=pid")] { cfgs.push((unpriv, o)); } }
+            for (unpriv, opts) in &cfgs {
+                let mut scs: Vec<Scenario> = Vec::new();
+                for hk in ["new", "capi", "fromfd"] {
+                    for (base, sub, class) in &subs {
+                        for opn in ["proc_open", "proc_readlink", "proc_open_follow"] {
+                            if hk == "capi" && opn == "proc_open_follow" { continue; }
+                            if !th && opn == "proc_open_follow" && *class != "missing" { continue; }
+                            let mut op = Op::new(opn).base(base).path(sub).flags(O_RDONLY | O_NONBLOCK);
+                            match hk { "new" => op = op.procfs("new"), "capi" => op = op.capi(), _ => op = op.procfs("pj") }
+                            scs.push(Scenario { name: format!("{}{}/{}/{}", if *unpriv { "uid1000" } else { "root" }, opts.map(|o| format!("+{}", o)).unwrap_or_default(), hk, op.brief()), backend: "K".into(), op, path: class.to_string() });
+                        }
+                    }
+                }
+                let s0 = scs[0].clone();
+                v.push(Item { scen: s0, plan: Plan::Trace, warm: true, mount_api: 0, max_exec: 1, bundle: scs, others: vec![], proc_opts: opts.map(|s| s.to_string()), unpriv: *unpriv, nofile: Some(256) });
+            }
+            // environment answers of the handle-construction protocol: every single (thorough: every pair of) deviating answer(s)
+            let names: Vec<String> = ["fsopen", "fsconfig", "fsmount", "open_tree", "openat", "faccessat2"].iter().map(|s| s.to_string()).collect();
+            for (unpriv, opts) in [(false, None), (true, Some("hidepid=2")), (false, Some("subset=pid")), (true, None)] {
+                for (base, sub, class) in [("root", "nonexistent", "missing"), ("root", "sys/kernel/ostype", "masked"), ("self", "nonexistent", "missing")] {
+                    for hk in ["new", "fromfd"] {
+                        let mut op = Op::new("proc_open").base(base).path(sub).flags(O_RDONLY | O_NONBLOCK);
+                        op = if hk == "new" { op.procfs("new") } else { op.procfs("pj") };
+                        let sc = Scenario { name: format!("{}{}/{}/{}", if unpriv { "uid1000" } else { "root" }, opts.map(|o| format!("+{}", o)).unwrap_or_default(), hk, op.brief()), backend: "K".into(), op, path: class.to_string() };
+                        let mut it = item(sc, Plan::Fault { bound: if th { 2 } else { 1 }, cfg: FaultCfg { all_syscalls: false, per_class: 4, eagain_runs: vec![], exhaustion: false, custom: Some((names.clone(), vec![libc::EPERM, libc::ENOSYS, libc::ENOENT])) } }, if th { 30_000 } else { 3_000 });
+                        it.proc_opts = opts.map(|s| s.to_string()); it.unpriv = unpriv; it.nofile = Some(256);
+                        v.push(it);
+                    }
+                }
+            }
         }
         "C16" => {
             // C-API lookups: safety violations from EAGAIN storms (kernel backend) and from attacker schedules (emulated backend)
             for p in ["a/b/c/d", "a/b/../b/c/../../b/c/d"] {
                 for name in ["resolve", "open_subpath"] {
                     let op = Op::new(name).capi().root(ROOT_IN).path(p).flags(O_RDONLY | O_NONBLOCK);
-                    v.push(item(Scenario { name: format!("K/{}", op.brief()), backend: "K".into(), op: op.clone(), path: p.into() }, Plan::Fault { bound: 1, cfg: FaultCfg { all_syscalls: false, per_class: 2, eagain_runs: vec![15, 16], exhaustion: false } }, 2_000));
+                    v.push(item(Scenario { name: format!("K/{}", op.brief()), backend: "K".into(), op: op.clone(), path: p.into() }, Plan::Fault { bound: 1, cfg: FaultCfg { all_syscalls: false, per_class: 2, eagain_runs: vec![15, 16], exhaustion: false, custom: None } }, 2_000));
                     if name == "resolve" || th { v.push(item(Scenario { name: format!("E/{}", op.brief()), backend: "E".into(), op, path: p.into() }, Plan::Attack { bound: 1, full: th }, 3_000)); }
                 }
             }
@@ -450,6 +494,8 @@ pub fn n_items(prop: &str, tier: &str) -> usize { items(prop, tier).len() }
 fn spec_for(it: &Item, scen: &Scenario) -> OneShot {
     let mut os = oneshot(&scen.backend, scen.op.clone(), it.warm);
     os.warmup.extend(handle_warmup(&scen.op));
+    if it.unpriv { os.setup.uid = 1000; os.setup.gid = 1000; os.setup.drop_caps = true; os.setup.keep_dumpable = true; }
+    os.setup.rlimit_nofile = it.nofile;
     if it.mount_api >= 1 { os.setup.deny.push("fsopen".to_string()); }
     if it.mount_api >= 2 { os.setup.deny.push("open_tree".to_string()); }
     os
@@ -574,6 +620,29 @@ fn judge(prop: &str, it: &Item, scen: &Scenario, w: &World, eo: &ExecOut, counts
         v.extend(judge_concurrent(prop, it, scen, w, eo)?);
         return Ok(v);
     }
+    if prop == "C08" {
+        if eo.timeout || eo.horizon_hit { v.push(("unbounded".into(), format!("lookup did not terminate within the horizon ({} syscalls)", eo.events.len()))); return Ok(v); }
+        // procfs handle creations and peak descriptor count, from the trace
+        let creations = eo.events.iter().filter(|e| e.rval >= 0 && (e.name == "fsmount" || e.name == "open_tree" || (e.name == "openat" && e.fd == Some(libc::AT_FDCWD) && e.path.as_deref() == Some("/proc")))).count();
+        let attempts = eo.events.iter().filter(|e| e.name == "fsopen" || e.name == "open_tree" || (e.name == "openat" && e.fd == Some(libc::AT_FDCWD) && e.path.as_deref() == Some("/proc"))).count();
+        let (mut cur, mut peak) = (0i64, 0i64);
+        for e in &eo.events { if e.rval >= 0 && e.retid.is_some() { cur += 1; peak = peak.max(cur); } if e.name == "close" && e.rval == 0 { cur -= 1; } }
+        counts.entry("max_handle_creations".into()).and_modify(|n| *n = (*n).max(creations as u64)).or_insert(creations as u64);
+        counts.entry("max_peak_descriptors".into()).and_modify(|n| *n = (*n).max(peak as u64)).or_insert(peak as u64);
+        // constant bound: the handle in use plus one temporary unmasked handle per internal lookup (open_follow does two lookups)
+        if creations > 4 || attempts > 16 { v.push(("handle-creations".into(), format!("one lookup created {} procfs handles ({} attempts); a constant number (<= 4: the handle in use, and one unmasked retry for each of open_follow's two internal lookups) is allowed", creations, attempts))); }
+        if peak > 24 { v.push(("descriptors".into(), format!("one lookup held {} descriptors open at once", peak))); }
+        match obs {
+            None => v.push(("crash".into(), format!("worker died: {}", outcome_text(w, eo, 0)))),
+            Some(o) => {
+                if scen.path == "missing" && eo.faults.is_empty() && o.panic.is_none() && (o.ok || o.errno != Some(libc::ENOENT)) {
+                    v.push((format!("missing-not-enoent:{}", if o.ok { "ok".into() } else { errname(o.errno.unwrap_or(-1)) }), format!("lookup of a path that does not exist reported {} ({}) instead of ENOENT", outcome_text(w, eo, 0), o.msg.clone().unwrap_or_default().chars().take(160).collect::<String>())));
+                }
+                if !eo.faults.is_empty() && o.ok && scen.path == "missing" { v.push(("missing-found".into(), "lookup of a path that does not exist succeeded".into())); }
+            }
+        }
+        return Ok(v);
+    }
     if prop == "C16" {
         match obs {
             None => v.push(("crash".into(), "worker died".into())),
@@ -645,7 +714,7 @@ fn vkey(prop: &str, scen: &Scenario, k: &str) -> String {
 pub fn run_item(prop: &str, tier: &str, idx: usize, only: Option<&Value>) -> MResult<ItemResult> {
     let its = items(prop, tier);
     let it = its.get(idx).ok_or_else(|| Mach("bad item".into()))?.clone();
-    enter_jail()?;
+    enter_jail_opts(it.proc_opts.as_deref())?;
     install_alarm_handler();
     let mut res = ItemResult::default();
     let mut states: BTreeSet<u64> = BTreeSet::new();
@@ -809,6 +878,11 @@ pub fn report(prop: &str, tier: &str) -> Report {
             level: "fault_enumeration",
             rule: format!("{} scenarios; for every syscall index i of the scenario's trace ({}) and every errno of the class catalogue (first {} per class) one execution with that single fault injected at i (ptrace: syscall skipped, -errno returned), plus EAGAIN x{{15,16,17}} runs on openat2 and descriptor exhaustion from i on; cold variants include first-use initialisation of the procfs handle; distinct = distinct (scenario, index, fault)", nscen, if th { "every syscall" } else { "path-taking and descriptor-creating syscalls" }, if th { 7 } else { 3 }),
             assumptions: common, exhaustive: true, extra: json!({"scenarios": nscen}),
+        },
+        "C08" => Report {
+            level: "model_checking",
+            rule: format!("{} executions: caller {{root, uid 1000 without capabilities}} x mount options of the /proc the process finds itself with {{default, hidepid=1, hidepid=2, hidepid=ptraceable, subset=pid, hidepid=2+subset=pid}} x handle {{ProcfsHandle::new(), global handle through the C API, try_from_fd(that /proc)}} x (base, sub-path) in {{missing x6, existing x3, masked-but-existing x3}} x {{open, readlink, open_follow}}, RLIMIT_NOFILE=256; plus the handle-construction protocol under every {} deviating answer(s) {{EPERM, ENOSYS, ENOENT}} of fsopen/fsconfig/fsmount/open_tree/open(\"/proc\")/faccessat2 (states = protocol positions reached, transitions = syscalls); oracle: missing => ENOENT, <= 4 procfs handles created and <= 24 descriptors held per lookup, termination within the horizon", nscen, if th { "pair of" } else { "single" }),
+            assumptions: common, exhaustive: true, extra: json!({"executions": nscen}),
         },
         "C12" | "C13" => Report {
             level: "model_checking",
